@@ -5,6 +5,7 @@ import io
 from hypothesis import strategies as st
 
 from vlib import gen_inputs as gi
+from vlib import greybox
 from vlib.runner import Arm, Eval, Failure
 from vlib.util import exc_key, exc_msg, have_c
 
@@ -404,12 +405,23 @@ def enum_splits(shard, nshards, tier):
             n += 1
 
 
+def greybox_campaign(shard, nshards, tier):
+    """Coverage-guided texts (vlib/greybox.py), valid or not, made reader-clean like the texts of the 'errors' arm (one defect per input:
+    an unacceptable character next to a syntax error is reported in a form-dependent order by design), in every delivery form with
+    one read-size schedule chosen by a hash."""
+    from vlib.runner import h64
+    scheds = [[[1]], [[2]], [[3]], [[1, 4096]], [[7]], [[5, 1]]]
+    return greybox.campaign(shard, nshards, tier, PROPERTY, "greybox", quick=4000, thorough=300000,
+                            wrap=lambda t: (sanitize(t.lstrip("\ufeff")), 0, None, scheds[h64(t) % len(scheds)]), max_len=160)
+
+
 def arms(tier):
     return [
         Arm("valid", eval_case, valid_cases, quick=700, thorough=40000),
         Arm("errors", eval_case, error_cases, quick=700, thorough=40000),
         Arm("reader-defects", eval_case, defect_cases, quick=600, thorough=30000),
         Arm("all-splits", eval_case, enum=enum_splits, exhaustive=True),
+        Arm("greybox", eval_case, enum=greybox_campaign),
     ]
 
 
